@@ -57,7 +57,9 @@ def kind_text(k, name="doc"):
         "figure_md_plain": "```{figure-md} figp-" + name + "\n![alt](a.png)\n\ncaption text\n```\n",
         "figure_md_fail": "```{figure-md}\nnot an image\n```\n",
         "xlink": "# X\n\n[](anchors_doc.md#sub-1) and [t](anchors_doc.md#sub)\n",
-        "include_doc": "# Includes a document\n\n```{include} inca.md\n```\n",      # another document of the build, which itself includes a file
+        "include_doc": "# Includes a document\n\n```{include} inca.md\n```\n",
+        "amsmath": "# Math\n\n\\begin{align*}\na &= b\\\\\nc &= d\n\\end{align*}\n\ntext\n",      # (written by the process that did not read it)
+        "strike": "# S " + name + "\n\nsome ~~struck~~ text\n",                          # one warning per document, whoever was read before      # another document of the build, which itself includes a file
     }[k]
 
 
@@ -144,7 +146,8 @@ def build(job):
             return [c for c in out if c]
         SB.make_chunks = fake_chunks
         parallel = max(2, len(want))
-    r = run_project(d, files, {"myst_heading_anchors": 2, "exclude_patterns": ["_build", "inc.md"]}, builder="html", parallel=parallel, conf_extra=extra)
+    r = run_project(d, files, {"myst_heading_anchors": 2, "exclude_patterns": ["_build", "inc.md"], "myst_enable_extensions": ["amsmath", "strikethrough"]},
+                    builder="html", parallel=parallel, conf_extra=extra, want_html=True)
     out = {"ok": r["ok"], "error": r["error"], "docs": {}}
     if r["ok"]:
         from docutils import nodes
@@ -152,6 +155,8 @@ def build(job):
             t = r["doctrees"].get(n)
             ws = sorted((w["tag"] or w["msg"][:50], w["line"] or 0) for w in (r.get("build_warnings") or []) if w["src"] and os.path.basename(w["src"]).split(".")[0] == n)
             sig = (t.pformat() if t is not None else "<none>") + "\n" + repr(ws)
+            body = re.search(r'<div class="body" role="main">(.*?)<div class="sphinxsidebar"', (r.get("html") or {}).get(n) or "", re.S)
+            sig += "\n--- written html ---\n" + (body.group(1) if body else "<none>")
             sig = re.sub(r"/[^\s\"']*?/(?=[\w.-]+\.(md|png))", "", sig)      # absolute source directories differ between builds
             ab = "ok"
             if k == "html_img" and t is not None:
@@ -297,10 +302,12 @@ def run(ctx):
                 break
     # a second, small family: a document that includes another document of the build (which includes a file); every
     # read order, serial and split over two workers -- each document's output must be the same in all of them
-    bdocs2 = [("inca", "include"), ("incb", "include_doc"), ("imgz", "html_img")]
+    bdocs2 = [("inca", "include"), ("incb", "include_doc"), ("imgz", "html_img"), ("amath", "amsmath"), ("s1", "strike"), ("s2", "strike")]
     names2 = [n for n, _ in bdocs2]
-    sch2 = [(list(o_), None) for o_ in itertools.permutations(names2)]
-    sch2 += [(names2, [["inca"], ["incb", "imgz"]]), (names2, [["inca", "incb"], ["imgz"]]), (["incb", "inca", "imgz"], [["incb"], ["inca", "imgz"]])]
+    rot = lambda k: names2[k:] + names2[:k]      # noqa: E731
+    sch2 = [(names2, None), (names2[::-1], None), (rot(1), None), (rot(2), None), (rot(4), None), (["incb", "inca", "s2", "s1", "amath", "imgz"], None)]
+    sch2 += [(names2, [names2[:3], names2[3:]]), (names2, [names2[::2], names2[1::2]]), (names2[::-1], [["s2", "amath"], ["s1", "imgz", "incb", "inca"]]),
+             (rot(3), [["amath"], ["s1", "s2", "inca", "incb", "imgz"]])]
     outs2 = pmap(_build_job, [(str(ctx.wd / f"b2_{n}"), bdocs2, order, chunks) for n, (order, chunks) in enumerate(sch2)], procs=8, chunksize=1)
     ref2 = None
     for (order, chunks), o in zip(sch2, outs2):
